@@ -158,6 +158,14 @@ reg('C18', 'jsdiff', 'exploration',
     'Python is the reference (pinned to the tables by C06/C11); node 20 semantics; comma decimals and malformed inputs are outside the shared domain.',
     'bounded exhaustive differential enumeration (two implementations on one input grid)', 'DESIGN.md 2.6, 3/C18')
 
+reg('C12', 'rxmc', 'exploration',
+    'About 100 event codes (the first code of the generated event-code language per family vector x distance class x letter case x weight-specific, plus the customary '
+    'names) x ~8 700 texts from a grammar of plausible and implausible entries (1-3 fields over a field set, decimals, both separators and decimal marks, over-range '
+    'fields, junk) x gender x precision x {ValueError, custom class}: raises exactly the given class, or returns a string that satisfies the output clause of its kind '
+    '(timed: field ranges and speed limits on get_distance; field: two decimals and the record limit; multi: integer below 10000) and is accepted unchanged when validated again.',
+    'Kind of an event decided by the patterns; cross product of gender/precision/error class is full on the default gender and precision and single-class elsewhere.',
+    'bounded exhaustive enumeration over an input grammar (codes from the regex language, texts from a field grammar)', 'DESIGN.md 3/C12')
+
 ALL = ['C%02d' % i for i in range(1, 20)]
 PENDING_REASON = 'check not yet built in this session (planned, see DESIGN.md section 7); not claimed until it runs clean'
 
